@@ -33,6 +33,9 @@ unsigned g_json_version;	/* bumped by every mutator call */
 unsigned g_json_mutations;	/* number of mutator calls */
 unsigned g_json_loads_flags;	/* flags of the last json_loads/loadb call */
 unsigned g_json_dumps_flags;	/* flags of the last json_dumps call */
+json_t *g_json_loaded;		/* document returned by the last json_loads/loadb/load_file/loadf (NULL: it failed) */
+json_t *g_json_loaded_tracked;	/* ... and its tracked member at load time */
+int g_json_update_kind;		/* last merge: 1 = json_object_update, 2 = json_object_update_missing */
 #ifndef VJ_MAX_STR
 #define VJ_MAX_STR 0x1000000
 #endif
@@ -305,8 +308,8 @@ static int vj_update(json_t *object, json_t *other, int missing_only)
 	}
 	return 0;
 }
-int json_object_update(json_t *object, json_t *other) { return vj_update(object, other, 0); }
-int json_object_update_missing(json_t *object, json_t *other) { return vj_update(object, other, 1); }
+int json_object_update(json_t *object, json_t *other) { g_json_update_kind = 1; return vj_update(object, other, 0); }
+int json_object_update_missing(json_t *object, json_t *other) { g_json_update_kind = 2; return vj_update(object, other, 1); }
 
 int json_array_append_new(json_t *array, json_t *value)
 {
@@ -357,6 +360,8 @@ json_t *json_deep_copy(const json_t *value)
 static json_t *vj_load(size_t flags, json_error_t *error)
 {
 	g_json_loads_flags = (unsigned)flags;
+	g_json_loaded = NULL;
+	g_json_loaded_tracked = NULL;
 	if (nondet_bool()) {
 		if (error != NULL) {
 			/* jansson fills source and text with NUL-terminated strings */
@@ -374,11 +379,14 @@ static json_t *vj_load(size_t flags, json_error_t *error)
 	/* without JSON_DECODE_ANY only arrays and objects are returned */
 	if (!(flags & JSON_DECODE_ANY))
 		__CPROVER_assume(n->type == JSON_OBJECT || n->type == JSON_ARRAY);
+	g_json_loaded = n;
+	g_json_loaded_tracked = n->tracked;
 	return (json_t *)n;
 }
 
 json_t *json_loads(const char *input, size_t flags, json_error_t *error)
 {
+	g_json_loaded = NULL; g_json_loaded_tracked = NULL; g_json_loads_flags = (unsigned)flags;
 	if (input == NULL)
 		return NULL;	/* jansson: error "wrong arguments" */
 	return vj_load(flags, error);
